@@ -446,6 +446,7 @@ func runC15(p *core.Prog, r *core.Report) {
 		}
 	})
 	r.Guard("C15.R6", "index-file", "index file round trip", func() { checkIndexFileCodec(p, r, "C15.R6") })
+	r.Guard("C15.R6", "index-upload", "the index file is uploaded whole on every attempt", func() { checkFreshReaderPerAttempt(p, r, "C15.R6") })
 	r.Guard("C15.R6", "precomputed-bitmap", "same expression on keys and on stored bitmaps", func() { checkPrecomputedBitmap(p, r) })
 	r.Guard("C15.R6", "index-per-module", "one index per index module", func() {
 		fn := p.Func(pkgCache, "Engine.EndOfStream")
